@@ -501,20 +501,36 @@ fn show(r: &Result<Fields, TemporalError>) -> String {
     }
 }
 
+/// `with`: every third receiver is updated from a record whose own `calendar` member names another calendar than the
+/// receiver's (the Rust record always has one; default ISO). The calendar is not a supplied field: the fields are
+/// resolved in the receiver's calendar and the result is the same.
+fn foreign_record_calendar(c: &MergeCase) -> bool {
+    c.op == Op::With && matches!(c.ty, Ty::Date | Ty::DateTime | Ty::YearMonth) && (c.recv_day as i128 + c.recv_ns).rem_euclid(3) == 0
+}
+fn build_for_with(c: &MergeCase) -> PartialDate {
+    let pd = c.pd.build();
+    if foreign_record_calendar(c) {
+        let names = ["persian", "hebrew", "gregory", "chinese", "roc"];
+        pd.with_calendar(temporal_rs::Calendar::from_str(names[(c.recv_day.rem_euclid(5)) as usize]).expect("calendar"))
+    } else {
+        pd
+    }
+}
+
 /// executes the operation under test; a panic becomes `Err(Err(location))`
 fn execute(c: &MergeCase) -> Result<Result<Fields, TemporalError>, String> {
     guard(|| match (c.ty, c.op) {
-        (Ty::Date, Op::With) => recv_date(c.recv_day).with(c.pd.build(), c.ov.opt()).map(|r| f_date(&r)),
+        (Ty::Date, Op::With) => recv_date(c.recv_day).with(build_for_with(c), c.ov.opt()).map(|r| f_date(&r)),
         (Ty::Date, Op::From) => PlainDate::from_partial(c.pd.build(), c.ov.opt()).map(|r| f_date(&r)),
         (Ty::Time, Op::With) => recv_time(c.recv_ns).with(c.pt.build(), c.ov.opt()).map(|r| f_time(&r)),
         (Ty::Time, Op::From) => PlainTime::from_partial(c.pt.build(), c.ov.opt()).map(|r| f_time(&r)),
         (Ty::DateTime, Op::With) => recv_dt(c.recv_day, c.recv_ns)
-            .with(PartialDateTime::new().with_partial_date(c.pd.build()).with_partial_time(c.pt.build()), c.ov.opt())
+            .with(PartialDateTime::new().with_partial_date(build_for_with(c)).with_partial_time(c.pt.build()), c.ov.opt())
             .map(|r| f_dt(&r)),
         (Ty::DateTime, Op::From) => {
             PlainDateTime::from_partial(PartialDateTime::new().with_partial_date(c.pd.build()).with_partial_time(c.pt.build()), c.ov.opt()).map(|r| f_dt(&r))
         }
-        (Ty::YearMonth, Op::With) => recv_ym(c.recv_day).with(c.pd.build(), c.ov.opt()).map(|r| f_ym(&r)),
+        (Ty::YearMonth, Op::With) => recv_ym(c.recv_day).with(build_for_with(c), c.ov.opt()).map(|r| f_ym(&r)),
         (Ty::YearMonth, Op::From) => PlainYearMonth::from_partial(c.pd.build(), c.ov.bare()).map(|r| f_ym(&r)),
         (Ty::Zoned, _) => {
             let offset = c.offset_given.then(|| UtcOffset::from_str(&fmt::offset_minutes((c.zone.minutes() + c.offset_delta as i64).clamp(-1439, 1439))).expect("offset string"));
@@ -555,11 +571,15 @@ impl SubCheck for MergeSub {
         let c2 = MergeCase { pd: pd.clone(), pt, ..c.clone() };
 
         // --- classes and the non-triviality rule
+        let foreign_cal = foreign_record_calendar(c);
         let n_fields = if has_date { if c.ty == Ty::YearMonth { 3 } else { 4 } } else { 0 } + if has_time { 6 } else { 0 };
         let n_supplied = [pd.year.is_some(), pd.month.is_some(), pd.month_code.is_some(), pd.day.is_some() && c.ty != Ty::YearMonth].iter().filter(|b| **b).count()
             + pt.arr().iter().filter(|x| x.is_some()).count();
         let both_months = pd.month.is_some() && pd.month_code.is_some();
         let mut o = Outcome::pass().class(lab);
+        if foreign_cal {
+            o = o.class("with:record-names-another-calendar");
+        }
         o = o.nontrivial((n_supplied >= 1 && n_supplied < n_fields) || mo.supplied_out_of_range || both_months);
         o = o.class(match c.ov {
             Ov::Absent => "overflow-absent",
